@@ -3,6 +3,7 @@ import Thanos.Model.CacheKeys
 import Thanos.Model.PostingsCodec
 import Thanos.Model.CachingBucket
 import Thanos.Model.IndexHeader
+import Thanos.Model.LazyReader
 /-
   Line-protocol driver of the `index` family (C11 C12 C13 C14 C16).
   One request per line, one answer per line; every line is self-contained.
@@ -53,6 +54,14 @@ import Thanos.Model.IndexHeader
         wanted  = "-" | <rank>(,<rank>)*               the requested values, sorted
       -> s=<kept table indices> l=<lastValOffset> v=<LabelValues as ranks> r=<range>(,<range>)*
          range = <start>:<end> | nf ;  r=err on an error
+
+  C16 (lazy index-header) — grammar
+    lz.seq <item>(,<item>)*     calls made one after the other on one LazyBinaryReader
+        item := q (a Reader method) | u (unloadIfIdleSince(0)) | b (unloadIfIdleSince: not idle) | p (isIdleSince)
+      -> <result>(,<result>)* loads=<n> unloads=<n>
+         result := ok | err | unloaded | noop | notidle | p0 | p1
+    lz.sched <kinds> <schedule>   kinds := [qubp]+ (one thread each), schedule := <tid>(,<tid>)*
+      -> bad=<0|1> loads=<n> unloads=<n> <log>     (model only: used by the corpus to replay interleavings)
 -/
 open Thanos Thanos.Parse
 
@@ -347,13 +356,54 @@ def handleC11 : List String → Option String
   | _ => none
 end C11
 
+/-! ### C16 -/
+section C16
+open Thanos.LazyReader
+
+def showEvent : Event → String
+  | .ok _ => "ok"
+  | .errUnloaded => "err"
+  | .unloaded _ => "unloaded"
+  | .noop => "noop"
+  | .notIdle => "notidle"
+  | .probed b => if b then "p1" else "p0"
+
+def kindOf? (c : Char) : Option Kind :=
+  match c with
+  | 'q' => some .reader
+  | 'u' => some (.unloader true)
+  | 'b' => some (.unloader false)
+  | 'p' => some .probe
+  | _ => none
+
+def tidOf? (s : String) : Option Nat :=
+  match s with
+  | "q" => some 0 | "u" => some 1 | "b" => some 2 | "p" => some 3
+  | _ => none
+
+def handleC16 : List String → Option String
+  | ["lz.seq", script] => do
+    let tids ← (listOf ',' script).mapM tidOf?
+    let s0 := init [.reader, .unloader true, .unloader false, .probe]
+    let s := tids.foldl (fun s i => call true false 16 s i) s0
+    pure s!"{joinWith "," (s.log.map fun e => showEvent e.2)} loads={s.loads} unloads={s.unloads}"
+  | "lz.sched" :: kinds :: sched :: _ => do
+    let ks ← kinds.toList.mapM kindOf?
+    let sch ← parseNats? ',' sched
+    let s := run true false (init ks) sch
+    let log := joinWith "," (s.log.map fun e => s!"{e.1}:{showEvent e.2}")
+    pure s!"bad={if s.bad then 1 else 0} loads={s.loads} unloads={s.unloads} {log}"
+  | _ => none
+end C16
+
 def handle (toks : List String) : String :=
   match toks with
   | [] => "bad-op"
   | t :: _ =>
     let r := if t.startsWith "pc." then handleC12 toks
              else if t.startsWith "cb." then handleC14 toks
-             else if t.startsWith "ih." then handleC11 toks else handleC13 toks
+             else if t.startsWith "ih." then handleC11 toks
+             else if t.startsWith "lz." then handleC16 toks else handleC13 toks
     match r with
     | some r => r
     | none => "bad-op"
